@@ -74,6 +74,20 @@ def get_las(case, out):
         label = LB.summary(case["las"])
     out.nontrivial = any(c in classes for c in ("int-header-value", "npint-header-value", "nan-header-value",
                                                  "text-curve", "nan-samples"))
+    if case.get("edit_in_place"):
+        # the views are taken from the curves as they are NOW: look at las.data first, then change samples in place
+        # (the array objects stay the same), then export
+        try:
+            _ = las.data
+            for cv in las.curves[1:]:
+                d = np.asarray(cv.data)
+                if d.dtype.kind == "f" and len(d):
+                    cv.data[0] = 4242.5
+                    cv.data[-1] = -17.25
+                    out.cls("edited-in-place-after-a-look-at-data")
+                    break
+        except Exception:  # noqa - ragged curves etc.: nothing edited
+            pass
     return las, label
 
 
@@ -821,7 +835,7 @@ NAME_LIST = st.lists(st.one_of(st.sampled_from(["A", "B", "depth", "x y", "", "q
 @st.composite
 def csv_cases(draw):
     desc = draw(desc_strategy("csv"))
-    case = dict(view="csv", src="gen", las=desc)
+    case = dict(view="csv", src="gen", las=desc, edit_in_place=draw(st.integers(0, 3)) == 0)
     case["mnemonics"] = draw(st.one_of(st.just(True), st.just(True), st.just(False), NAME_LIST))
     case["units"] = draw(st.one_of(st.just(True), st.just(True), st.just(False), NAME_LIST))
     case["units_loc"] = draw(st.sampled_from(["line", "line", "[]", "()", None]))
@@ -843,6 +857,7 @@ def excel_cases(draw):
 @st.composite
 def df_cases(draw):
     desc = draw(desc_strategy("df"))
+    edit = draw(st.integers(0, 3)) == 0
     rows = len(desc["curves"][0][5]) if desc.get("curves") else 0
     # a rename after construction can leave two curves whose names differ in case only inside a case-insensitive section,
     # unnumbered; set_data then numbers them: such a start state is not one the statement's round trip speaks about
@@ -853,7 +868,7 @@ def df_cases(draw):
         # judged on frames that carry data
         for k in ("drop", "rename", "assign"):
             desc.pop(k, None)
-    return dict(view="df", src="gen", las=desc)
+    return dict(view="df", src="gen", las=desc, edit_in_place=edit)
 
 
 def spell(draw, fam):
